@@ -268,12 +268,15 @@ func (f *file) Close() error {
 		return io.EOF
 	}
 
-	if err := f.ioc.UnsetReadWrite(&f.slot); err != nil {
-		return err
-	}
+	// Release the descriptor even if the poller could not remove its interests:
+	// this is the only chance to do so (a second Close is refused above).
+	err := f.ioc.UnsetReadWrite(&f.slot)
 	f.ioc.Deregister(&f.slot)
 
-	return syscall.Close(f.slot.Fd)
+	if cerr := syscall.Close(f.slot.Fd); err == nil {
+		err = cerr
+	}
+	return err
 }
 
 func (f *file) Closed() bool {
